@@ -140,6 +140,10 @@ def _norm_case(rng):
     if rng.random() < 0.2:
         x[rng.random(x.shape) < 0.3] = 0.0
         x[:, 0] = np.maximum(x[:, 0], 1e-3)    # no all-zero row
+    if rng.random() < 0.2:
+        # rows of tiny (or huge) overall magnitude: trace fractions of an almost vanished
+        # phase; normalisation is scale invariant, absolute guards are not
+        x = x * 10.0 ** rng.choice([-30.0, -20.0, -14.0, 12.0], size=(n, 1))
     return {"kind": "normalize", "x": x.tolist(),
             "layout": str(rng.choice(["C", "F", "strided"]))}
 
